@@ -627,3 +627,65 @@ package core
 //@   call readMetadata#2 assert [initial-state-only-when-final-is-absent] e1_set && e1 != nil && errIs(e1, iface(storagestatus.ErrNotExists))
 //@   call readMetadata#2 assert [initial-state-path] $pth == model.GetArchivePathToInitialSplit(s.RepoID, s.DiamondID, s.SplitDescriptor.SplitID)
 //@   ensures [unreadable-final-state-is-an-error] e1_set && e1 != nil && !errIs(e1, iface(storagestatus.ErrNotExists)) ==> result != nil
+
+// ---- download side (C04: "a filtered or single-file download yields exactly the selected subset";
+//      C05: the update applies each diff entry with the action of its kind, on the destination) -------
+// one entry is materialised under ITS path with the bytes of ITS content key; an overwrite first removes
+// the old file; every failing step is reported (C03: a failed verification surfaces from Put)
+//@ func downloadBundleEntrySyncMaybeOverwrite
+//@   requires bundle != nil
+//@   call KeyFromString#1 assert [content-key-of-entry] $0 == bundleEntry.Hash
+//@   call KeyFromString#1 bind key = $ret0
+//@   call KeyFromString#1 bind ke = $ret1
+//@   call Get#1 assert [content-of-that-key] key_set && $2 == key
+//@   call Get#1 bind rd = $ret0
+//@   call Get#1 bind ge = $ret1
+//@   call Delete#1 assert [only-on-overwrite] overwrite && $key == bundleEntry.NameWithPath
+//@   call Delete#1 bind de = $ret0
+//@   call Put#1 assert [under-its-path] $key == bundleEntry.NameWithPath && rd_set && $rdr == rd && $noOverwrite == storage.NoOverWrite
+//@   call Put#1 bind pe = $ret0
+//@   ensures [done-means-written] result == nil ==> pe_set && pe == nil
+//@   ensures [propagate] ((ke_set && ke != nil) || (ge_set && ge != nil) || (de_set && de != nil) || (pe_set && pe != nil)) ==> result != nil
+
+//@ func deleteBundleEntrySync
+//@   requires bundle != nil
+//@   call Delete#1 assert [its-path] $key == bundleEntry.NameWithPath
+//@   call Delete#1 bind de = $ret0
+//@   ensures [propagate] de_set && result == de
+
+//@ func downloadBundleEntrySync
+//@   requires bundle != nil
+//@   call downloadBundleEntrySyncMaybeOverwrite#1 assert [same-entry-no-overwrite] $bundleEntry == bundleEntry && $bundle == bundle && $fs == fs && $overwrite == false
+
+//@ func downloadBundleEntry
+//@   requires bundle != nil
+//@   call downloadBundleEntrySync#1 assert [same-entry] $bundleEntry == bundleEntry && $bundle == bundle && $fs == fs
+//@ func downloadBundleEntryOverwrite
+//@   requires bundle != nil
+//@   call downloadBundleEntrySyncMaybeOverwrite#1 assert [same-entry-overwrite] $bundleEntry == bundleEntry && $bundle == bundle && $fs == fs && $overwrite == true
+//@ func deleteBundleEntry
+//@   requires bundle != nil
+//@   call deleteBundleEntrySync#1 assert [same-entry] $bundleEntry == bundleEntry && $bundle == bundle
+
+// plain download: an entry is fetched exactly when there is no predicate or the predicate accepts its
+// path; update: added entries are fetched, removed ones deleted, changed ones fetched over the old file,
+// always in the destination
+//@ func downloadBundleEntries
+//@   requires bundle != nil
+//@   call selectionPredicate#1 assert [asked-about-this-path] $0 == b.NameWithPath
+//@   call selectionPredicate#1 bind sel = $ret0
+//@   call selectionPredicate#1 bind selErr = $ret1
+//@   call downloadBundleEntry#1 assert [selected] selectionPredicate == nil || (sel_set && sel && selErr == nil)
+//@   call downloadBundleEntry#1 assert [this-entry] $bundleEntry == b && $bundle == bundle && $fs == fs
+//@   call downloadBundleEntry#2 assert [added-is-fetched] de.Type == DiffEntryTypeAdd && $bundleEntry == de.Additional && $bundle == bundleDest && $fs == fs
+//@   call deleteBundleEntry#1 assert [removed-is-deleted] de.Type == DiffEntryTypeDel && $bundleEntry == de.Existing && $bundle == bundleDest
+//@   call downloadBundleEntryOverwrite#1 assert [changed-is-replaced] de.Type == DiffEntryTypeDif && $bundleEntry == de.Additional && $bundle == bundleDest && $fs == fs
+//@   call diffBundles#1 assert [destination-against-source] $bundleExisting == bundleDest && $bundleAdditional == bundle
+
+// single file: every entry with that path (and no other) is fetched; none found is an error
+//@ func unpackDataFile
+//@   requires bundle != nil
+//@   call downloadBundleEntrySync#1 assert [the-named-file] $bundleEntry == b && b.NameWithPath == file && $bundle == bundle
+//@   call downloadBundleEntrySync#1 bind fetched = $ret0
+//@   loop 1 invariant [found-means-fetched] foundFile ==> fetched_set
+//@   ensures [absent-is-an-error] result == nil ==> fetched_set
